@@ -40,6 +40,9 @@ pub enum ErrorKind {
     ImmatureSignature,
     InvalidAlgorithm,
     MissingAlgorithm,
+    /// model of ErrorKind::Base64(base64::DecodeError): raised for a token whose signature segment is
+    /// not canonical base64url (the real crate decodes the signature before comparing it)
+    Base64(String),
     Json(Arc<serde_json::Error>),
     Utf8(::std::string::FromUtf8Error),
 }
